@@ -233,7 +233,8 @@ def document(input_file: str, settings: Settings):
                 for subdir in copy.copy(subdirs):
                     logger.debug(f"Checking filenames in subdir {subdir}")
                     for filename in os.scandir(os.path.join(root, subdir)):
-                        if filename.is_file() and filename.path.endswith(".cmake"):
+                        if filename.is_file() and filename.path.endswith(".cmake") \
+                                and not spec.match_file(filename.path):
                             break
                     # If we exited loop normally, i.e. a .cmake file was not
                     # found
